@@ -103,7 +103,9 @@ Definition C06_isgr_default_converges_full_statement : Prop :=
    clock reading [phys] is an arbitrary input of every write, so two sources MAY generate equal values),
    VPull d / VPush d = one atomic transfer of the sender's current version (CheckChangeVersion, then
    PutExistingCurrentVersion: IsInConflict, tombstone-over-tombstone, DefaultLWWConflictResolutionType,
-   resolveRemoteWinsHLV / resolveLocalWinsHLV).  All theorems quantify over ALL operation lists. *)
+   resolveRemoteWinsHLV / resolveLocalWinsHLV), VPullRetry d body phys = a pull whose write loses its CAS to a local
+   PUT on the active side (the update callback is re-run on the updated document against the same incoming revision
+   and vector).  All theorems quantify over ALL operation lists. *)
 
 (* ---- convergence: after ANY history -- edits, deletes, resurrections, pulls, pushes on both peers, any number of
    documents, conflicts of any shape, resolutions not yet pushed back, EQUAL current-version values included --
